@@ -340,7 +340,7 @@ class BatchWorld(World):
             "time (virtual clock)", "uuid4 (seeded)"]
     PROBES = ["empty_batch", "all_ok", "failure_midway", "failure_first", "unexposed_name", "private_name", "missing_name",
               "oneway_batch", "oneway_with_failure", "state_compared", "serpent", "json", "marshal", "msgpack",
-              "multiplex", "thread", "second_batch", "concurrent", "kwargs", "failure_at_position", "failure_at_submission",
+              "multiplex", "thread", "second_batch", "concurrent", "kwargs", "failure_at_position", "failure_at_submission", "oversize_batch", "oversize_batch_refused",
               "background_interleaved", "compressed", "fragmented", "instance_target", "session_class", "percall_class",
               "peer_client", "reconnected", "session_state_compared", "class_instances_compared", "slow_batch",
               "hangup_after_oneway", "abandoned_slow_oneway", "client_gave_up", "serializer_lines",
@@ -371,7 +371,7 @@ class BatchWorld(World):
                    "and state of such a batch are judged as usual"]
     QUICK_RUNS = 4000
     CHUNK = 100
-    SHRINK_LISTS = ["calls", "second", "again", "peer.calls", "peer.second"]
+    SHRINK_LISTS = ["calls", "second", "again", "peer.calls", "peer.second", "oversize.calls"]
 
     # ------------------------------------------------------------------
     def gen(self, rng, tier):
@@ -428,6 +428,15 @@ class BatchWorld(World):
                         concurrent=False, impatient=None, hangup=False, commtimeout=0, long=True)
             plan["net"]["p_frag"] = 0.0
             target = "instance"
+        if "long" not in plan and rng.random() < 0.03:
+            # a batch beyond MAX_MESSAGE_SIZE (every single call fits): one failing call early, many calls behind it
+            n = rng.randint(20, 60)
+            calls = [{"m": "push", "a": ["x" * rng.choice([60, 100, 150])], "k": {}} for _ in range(n)]
+            if rng.random() < 0.8:
+                calls[rng.randint(0, 6)] = rng.choice([{"m": "check", "a": [-3], "k": {}}, {"m": "div", "a": [1, 0], "k": {}},
+                                                       {"m": "hidden", "a": [1], "k": {}}, {"m": "fail", "a": ["key", 5], "k": {}}])
+            return {"servertype": servertype, "serializer": serializer, "net": {"p_frag": 0.0, "shuffle_select": False}, "p_block": 0.0,
+                    "oversize": {"limit": rng.choice([1000, 1500, 2000]), "calls": calls, "mode": rng.choice(["normal", "normal", "oneway"])}}
         if target != "instance":
             plan["concurrent"] = False
             plan["start"] = rng.choice([0, 0, 0.01, 2.0])
@@ -446,6 +455,8 @@ class BatchWorld(World):
         return _codes() + _ser_codes() if plan.get("ser_lines") else _codes()
 
     def simplify(self, plan):
+        if plan.get("oversize"):
+            return
         if plan.get("second") is not None and not plan["second"]:
             yield dict(plan, second=None)
         if plan.get("again") is not None and not plan["again"]:
@@ -496,7 +507,10 @@ class BatchWorld(World):
         _RUN["sched"] = ctx.sched
         _UserExcs.install()
         try:
-            self._scenario(ctx, registered)
+            if ctx.plan.get("oversize"):
+                self._oversize(ctx)
+            else:
+                self._scenario(ctx, registered)
         finally:
             _UserExcs.uninstall()
             _RUN["sched"] = None
@@ -506,6 +520,62 @@ class BatchWorld(World):
                 except Exception:  # noqa
                     pass
                 cls._made = []
+
+    def _oversize(self, ctx):
+        """focus shape 'batch beyond MAX_MESSAGE_SIZE' (own small oracle): every single call fits, the batch request does not.
+        Whatever the client makes of that - refuse it as a whole, or send it in parts - no call after the first failing one may
+        run, and a batch that was refused as a whole must have run nothing."""
+        plan, sched, ov = ctx.plan, ctx.sched, ctx.plan["oversize"]
+        config.SERIALIZER = plan["serializer"]
+        config.COMPRESSION = False
+        config.MAX_RETRIES = 0
+        config.MAX_MESSAGE_SIZE = int(ov["limit"])
+        srv = Server(ctx, plan["servertype"], pool=(1, 4))
+        acc = Acc()
+        uri = srv.register(acc, "objA")
+        calls = json.loads(json.dumps(ov["calls"]))
+        k = next((i for i, c in enumerate(calls) if c["m"] in ("check", "div", "fail", "hidden")), None)
+        px = CL.Proxy(uri)
+        px._pyroBind()
+        bp = CL.BatchProxy(px)
+        for c in calls:
+            getattr(bp, c["m"])(*c["a"], **c["k"])
+        sub_exc = it_exc = None
+        results = []
+        try:
+            r = bp(oneway=ov["mode"] == "oneway")
+            if r is not None:
+                try:
+                    for v in r:
+                        results.append(v)
+                except Exception as x:  # noqa
+                    it_exc = x
+        except Exception as x:  # noqa
+            sub_exc = x
+        sched.settle()
+        sched.sleep(1.0)
+        sched.settle()
+        ctx.nontrivial = True
+        ctx.probe("oversize_batch")
+        ran = [e[0] for e in acc.log]
+        tag = "batch of %d calls (%s) with MAX_MESSAGE_SIZE=%d" % (len(calls), ov["mode"], ov["limit"])
+        if isinstance(sub_exc, E.CommunicationError):
+            ctx.disturbed = "oversize batch lost its connection: %s" % sub_exc
+        elif isinstance(sub_exc, E.ProtocolError) and "size" in str(sub_exc).lower():
+            ctx.probe("oversize_batch_refused")
+            if ran:
+                ctx.violate("oversized-batch-partially-executed", ov["mode"], "%s was refused (%s: %s) yet %d of its calls ran"
+                            % (tag, type(sub_exc).__name__, sub_exc, len(ran)))
+        else:
+            # the client found a way to submit it: then it is a batch like any other
+            if k is not None and len(ran) > (k if calls[k]["m"] == "hidden" else k + 1):
+                ctx.violate("oneway-state-mismatch" if ov["mode"] == "oneway" else "state-mismatch", "executed-after-failure:oversize",
+                            "%s: call %d (%s) fails, yet %d calls ran: %r" % (tag, k, calls[k]["m"], len(ran), ran[k:k + 4]))
+            elif k is None and len(ran) != len(calls) and sub_exc is None and it_exc is None:
+                ctx.violate("state-mismatch", "calls-lost:oversize", "%s was submitted without an error, %d of its calls ran" % (tag, len(ran)))
+        if not srv.loop_alive():
+            ctx.disturbed = "daemon loop died: %r" % (srv.loop_death(),)
+        px._pyroRelease()
 
     def _scenario(self, ctx, registered):
         plan, sched = ctx.plan, ctx.sched
